@@ -231,4 +231,54 @@ theorem explicit_equiv (S : Sem W O R) (ρ : String → Nat) (p : Prog) :
           | true => exact rel_join_left S a b _ _ (ihp c a β' σ1 σ2 hnc.1 h1 h)
           | false => exact rel_join_right S a b _ _ (ihq c b β' σ1 σ2 hnc.2 h2 h)
 
+/-! ### erasing operations that are the identity -/
+
+theorem iter_congr {α : Type} (f g : α → α) (h : ∀ a, f a = g a) : ∀ n a, iter f n a = iter g n a := by
+  intro n
+  induction n with
+  | zero => intro a; rfl
+  | succ n ih => intro a; simp only [iter]; rw [h a, ih]
+
+/-- if every erased `other` operation acts as the identity, erasing them does not change the run -/
+theorem run_eraseTags (S : Sem W O R) (ρ : String → Nat) (tags : List String)
+    (hid : ∀ t, tags.contains t = true → ∀ r, S.other t r = r) (p : Prog) :
+    ∀ (β : List Bool) (σ : State W O R), run S ρ (eraseTags tags p) β σ = run S ρ p β σ := by
+  induction p with
+  | skip => intro β σ; rfl
+  | op o =>
+    intro β σ
+    cases o <;> try rfl
+    rename_i t
+    simp only [eraseTags]
+    split
+    · rename_i hc
+      simp only [run, stepOp]
+      rw [hid t hc]
+    · rfl
+  | seq p q ihp ihq =>
+    intro β σ
+    simp only [eraseTags]
+    split
+    · rename_i hp
+      have h1 : run S ρ p β σ = σ := by rw [← ihp, hp]; rfl
+      simp only [run]; rw [h1, ihq]
+    · rename_i hq _
+      have h2 : ∀ τ, run S ρ q β τ = τ := by intro τ; rw [← ihq, hq]; rfl
+      simp only [run]; rw [h2]
+      exact ihp β σ
+    · simp only [run]; rw [ihp, ihq]
+  | scan l b ih =>
+    intro β σ
+    simp only [eraseTags, run]
+    exact iter_congr _ _ (fun a => ih β a) _ _
+  | alt p q ihp ihq =>
+    intro β σ
+    simp only [eraseTags]
+    cases β with
+    | nil => simp only [run]; exact ihp [] σ
+    | cons x β' =>
+      cases x with
+      | false => simp only [run]; exact ihq β' σ
+      | true => simp only [run]; exact ihp β' σ
+
 end AfqmcVerif.Machine
